@@ -41,7 +41,9 @@ type subObs struct {
 //	           values; a staying prompt subscriber has no gap
 //	departure: nothing may be stuck at the final deadline unless `execute` is blocked on a LIVE
 //	           subscriber that does not read (back-pressure, not covered by the property)
-//	close:     after Close returned every accepted subscriber's channel is closed and nothing is received
+//	close:     when ANY Close call returns (overlapping or sequential calls) the channel of every subscriber
+//	           accepted before the first call is closed (`open` events are raised by the probe that runs
+//	           atomically with the logging of each return) and nothing is received afterwards
 func monitor(c Case, o Outcome, cap int) []Problem {
 	var ps []Problem
 	add := func(id, what string, a ...any) { ps = append(ps, Problem{id, fmt.Sprintf(what, a...)}) }
@@ -51,7 +53,8 @@ func monitor(c Case, o Outcome, cap int) []Problem {
 	batches := map[int]*batchRec{}
 	var order []*batchRec
 	var subs []*subObs
-	ccall, cret := -1, -1
+	ccall, cret := -1, -1 // first Close call, first Close return
+	ccalls, crets := 0, 0
 	pendingSret := []int{}
 	parks := 0
 	for i, e := range o.Evs {
@@ -85,12 +88,20 @@ func monitor(c Case, o Outcome, cap int) []Problem {
 				add("recv-after-channel-closed", "subscriber %d received %d after its channel was closed", e.Sub, e.V)
 			}
 			if cret >= 0 {
-				add("sent-after-close", "subscriber %d received %d after Close had returned", e.Sub, e.V)
+				add("delivery-after-close-returned", "subscriber %d received %d after a Close call had returned", e.Sub, e.V)
 			}
 		case "ccall":
-			ccall = i
+			if ccall < 0 {
+				ccall = i // the first Close call
+			}
+			ccalls++
 		case "cret":
-			cret = i
+			if cret < 0 {
+				cret = i // the first Close return
+			}
+			crets++
+		case "open":
+			add("close-returned-before-channels-closed", "a Close call returned (%d called, %d returned so far) while the channel of subscriber %d, accepted before the first Close call, was still open", ccalls, crets, e.Sub)
 		case "park":
 			parks++
 		}
